@@ -20,6 +20,7 @@ import (
 	"fmt"
 	"io"
 	"os"
+	"os/exec"
 	"path/filepath"
 	"runtime"
 	"sync/atomic"
@@ -252,4 +253,56 @@ func c17Counts(r *ev.Result, base string) {
 	r.Add(n)
 	r.Distinct += n
 	r.Set("directories_by_file_count", n)
+}
+
+// c17Program: what `curlrevshell -print-ctrl-i -ctrl-i <source>` prints is what
+// the library makes of that very source as it was named: a symbolic link to a
+// file with another name or extension, a directory, a link to a directory,
+// the flag given twice (the last one counts).
+func c17Program(r *ev.Result, base string) {
+	bin := binPath("curlrevshell")
+	if _, err := os.Stat(bin); nil != err {
+		r.Set("program_print_ctrl_i", "not run: "+err.Error())
+		return
+	}
+	root := filepath.Join(base, "program")
+	impl, dir := filepath.Join(root, "impl"), filepath.Join(root, "funcs")
+	os.MkdirAll(impl, 0o755)
+	os.MkdirAll(dir, 0o755)
+	defer os.RemoveAll(root)
+	os.WriteFile(filepath.Join(impl, "recon_v2.txt"), []byte("# TABDOC: recon look around\nrecon() { id; }"), 0o644)
+	os.WriteFile(filepath.Join(impl, "hello_v2.perl"), []byte("print \"hello @ARGV\\n\";\n"), 0o644)
+	os.Symlink(filepath.Join("impl", "recon_v2.txt"), filepath.Join(root, "funcs.sh"))
+	os.Symlink(filepath.Join("impl", "hello_v2.perl"), filepath.Join(root, "hello.pl"))
+	os.WriteFile(filepath.Join(dir, "a.sh"), []byte("# TABDOC: a_fn first\na_fn() { :; }\n"), 0o644)
+	os.WriteFile(filepath.Join(dir, "b.subr"), []byte("# TABDOC: b_fn second\nb_fn() { :; }"), 0o644)
+	os.Symlink("funcs", filepath.Join(root, "funcs-link"))
+	n := 0
+	for _, srcs := range [][]string{
+		{filepath.Join(root, "funcs.sh")}, {filepath.Join(root, "hello.pl")}, {dir}, {filepath.Join(root, "funcs-link")},
+		{dir, filepath.Join(root, "funcs.sh")}, {filepath.Join(root, "hello.pl"), dir},
+	} {
+		args := []string{"-print-ctrl-i"}
+		for _, s := range srcs {
+			args = append(args, "-ctrl-i", s)
+		}
+		cmd := exec.Command(bin, args...)
+		cmd.Env = append(os.Environ(), "HOME="+root, "CURLREVSHELL_LOG=")
+		cmd.Dir = root
+		got, err := cmd.Output()
+		conv := shellfuncsfile.NewDefaultConverter()
+		conv.AddListFunction = true
+		want, werr := conv.From(srcs[len(srcs)-1]) /* A flag given twice: the last value. */
+		n++
+		if nil != werr {
+			ev.Broken("c17 program seam: the library fails on %v: %s", srcs, werr)
+		}
+		if nil != err || !bytes.Equal(got, want) {
+			r.Violate(ev.Violation{Signature: "program/print-ctrl-i-differs", Kind: "c17big", Replay: map[string]any{"sources": srcs},
+				What: fmt.Sprintf("curlrevshell -print-ctrl-i with -ctrl-i %v (paths below %s): printed %q (%v), the library makes %q of the source named last", srcs, root, trunc80(string(got)), err, trunc80(string(want)))})
+		}
+	}
+	r.Add(n)
+	r.Distinct += n
+	r.Set("program_print_ctrl_i_runs", n)
 }
